@@ -1,4 +1,4 @@
-import NutilsVerif.Proofs.C03Hist
+import NutilsVerif.Proofs.C03Uncached
 /-!
 # C03 — compiled functions are pure functions of their arguments across calls (theorems)
 
@@ -14,6 +14,7 @@ allocation site, array objects with numpy's per-object `writeable` flag, sticky 
 `check_sound` shows that the semantic statements H1–H3 follow from `checkH`; the purity theorems hold for EVERY
 interpretation of the numpy operations, EVERY finite history of calls with arbitrary arguments (values, layouts, flags,
 conversions, missing entries) and arbitrary user writes into writable arrays returned earlier.
+The constant part of the script is assumed to evaluate without exception (`(cacheSt …).err = none`).
 -/
 namespace NutilsVerif.C03
 
@@ -91,17 +92,28 @@ theorem first_call_caches {D : Type} (I : Interp D) (p : Prog) (O : Var → List
     simp only [step, startH, List.mem_cons, List.not_mem_nil, or_false] at he
     rw [he]; rfl
 
-/-- **purity from the initial state**: for every history that starts with a call that raises nothing, every call of the
-history — with arbitrary arguments, after arbitrary user writes into returned writable arrays — returned what a freshly
-generated function returns.
-`_partial`: a history whose FIRST call raises is not covered (the model keeps the globals assigned before the `raise`, and
-showing that the next full first run ignores them needs a def-before-use argument that is not proved here; see
-`failed_first_call_keeps_first_run`: `first_run` stays True, so the next call re-executes the whole first-run branch). -/
-theorem purity_from_init_partial {D : Type} (I : Interp D) (p : Prog) (O : Var → List Loc) (cd : Var → D × Bool) (dflt : D)
-    (h : checkH p O = true) (hK : (cacheSt I p cd dflt).err = none) (args0 : Args D)
-    (hok : (exec I args0 .first p.body (enter p dflt (initSt p cd dflt) args0)).err = none) (es : List (Event D)) :
-    ∀ e ∈ (runHist I p dflt (startH p cd dflt) (.call args0 :: es)).log, e.2 = fresh I p cd dflt e.1 :=
-  (rerun_correct I p O cd dflt h hK _ (first_call_caches I p O cd dflt h hK args0 hok) es).2
+/-- **purity** (the property, on the model): from the initial globals, for EVERY finite history of calls with arbitrary
+arguments — returning or raising, including first runs that raise and leave partially assigned globals behind — interleaved
+with arbitrary user writes into writable arrays returned earlier, every call returned exactly what a freshly generated
+function returns for that call's arguments (`GInv` = invariant on globals: cached or still-uncached, on the held arrays and
+on the log; induction over the history) -/
+theorem purity {D : Type} (I : Interp D) (p : Prog) (O : Var → List Loc) (cd : Var → D × Bool) (dflt : D)
+    (h : checkH p O = true) (hK : (cacheSt I p cd dflt).err = none) (es : List (Event D)) :
+    ∀ e ∈ (runHist I p dflt (startH p cd dflt) es).log, e.2 = fresh I p cd dflt e.1 :=
+  (grunHist_inv I p O cd dflt (checkH_unpack p O h) hK es _ (start_ginv I p O cd dflt (checkH_unpack p O h))).log
+
+/-- the same from any state reached so far (cached or not), with the invariant carried along -/
+theorem purity_step {D : Type} (I : Interp D) (p : Prog) (O : Var → List Loc) (cd : Var → D × Bool) (dflt : D)
+    (h : checkH p O = true) (hK : (cacheSt I p cd dflt).err = none) (h0 : HSt D) (hI : GInv I p O cd dflt h0) (e : Event D) :
+    GInv I p O cd dflt (step I p dflt h0 e) :=
+  gstep_inv I p O cd dflt (checkH_unpack p O h) hK h0 hI e
+
+/-- a call while `first_run` is still True (initial globals, or after first runs that raised) returns what a fresh function
+returns: what an aborted first run left in the globals is never read before it is re-assigned -/
+theorem first_run_correct {D : Type} (I : Interp D) (p : Prog) (O : Var → List Loc) (cd : Var → D × Bool) (dflt : D)
+    (h : checkH p O = true) (hK : (cacheSt I p cd dflt).err = none) (st : St D) (hU : Uncached p O cd dflt st) (args : Args D) :
+    (call I p dflt st args).2.res = fresh I p cd dflt args :=
+  (call_uncached I p O cd dflt (checkH_unpack p O h) hK st hU args).1
 
 /-- a first call that raises leaves `first_run` True: nothing is considered cached -/
 theorem failed_first_call_keeps_first_run {D : Type} (I : Interp D) (p : Prog) (O : Var → List Loc) (cd : Var → D × Bool)
@@ -137,6 +149,14 @@ theorem args_untouched {D : Type} (I : Interp D) (p : Prog) (O : Var → List Lo
     (call I p dflt st args).1.heap (.arg a) = g.data := by
   rw [call_arg_frame I p O dflt (checkH_unpack p O h) st ho args a]
   simp [enter, ha]
+
+/-- … in every state of every history from the initial globals -/
+theorem args_untouched_hist {D : Type} (I : Interp D) (p : Prog) (O : Var → List Loc) (cd : Var → D × Bool) (dflt : D)
+    (h : checkH p O = true) (hK : (cacheSt I p cd dflt).err = none) (es : List (Event D)) (args : Args D) (a : Nat) (g : Arg D)
+    (ha : args a = some g) :
+    (call I p dflt (runHist I p dflt (startH p cd dflt) es).st args).1.heap (.arg a) = g.data :=
+  args_untouched I p O dflt h _
+    (grunHist_inv I p O cd dflt (checkH_unpack p O h) hK es _ (start_ginv I p O cd dflt (checkH_unpack p O h))).origin args a g ha
 
 /-- the origin invariant needed by `args_untouched` holds initially and in every cached state -/
 theorem origin_init {D : Type} (p : Prog) (O : Var → List Loc) (cd : Var → D × Bool) (dflt : D) (h : checkH p O = true) :
